@@ -34,8 +34,19 @@ func alphabetNames(names []string) []m.Op {
 	}
 	// a collection created from a query: on another collection (present or missing), and on the very name being created
 	out = append(out, m.Op{K: "createByQuery", Coll: names[1], Q: qOn(names[0], m.Leaf("gte", "x", int64(2)))},
-		m.Op{K: "createByQuery", Coll: names[0], Q: qOn(names[0], nil)})
+		m.Op{K: "createByQuery", Coll: names[0], Q: qOn(names[0], nil)},
+		// importing a file that holds no documents still creates the (empty) collection, or fails on an existing name
+		m.Op{K: "import", Coll: names[len(names)-1], Text: emptyImportFile(), Docs: []m.Doc{}})
 	return out
+}
+
+var emptyImportPath string
+
+func emptyImportFile() string {
+	if emptyImportPath == "" {
+		emptyImportPath = drv.WriteTemp("empty-import.json", "[]")
+	}
+	return emptyImportPath
 }
 
 var fieldsC14 = []string{"x", "xy", "n", "n.a"}
@@ -79,6 +90,8 @@ func alphabetIDs() []m.Op {
 			ins(c, doc(u1, "v", int64(5)), doc(u2, "v", int64(5)), doc(u1, "v", int64(6))), // duplicate inside the batch (last)
 			ins(c, doc(u3, "v", int64(7)), doc(u3, "v", int64(8))),                         // duplicate inside the batch (adjacent)
 			ins(c, doc(u3, "v", int64(9)), doc(u1, "v", int64(9))),                         // second may duplicate a stored id
+			m.Op{K: "insertTwice", Coll: c, Docs: []m.Doc{doc("", "v", int64(18))}}, // one id-less document object listed twice
+			m.Op{K: "insertTwice", Coll: c, Docs: []m.Doc{doc(u3, "v", int64(19))}},
 			m.Op{K: "save", Coll: c, Docs: []m.Doc{doc("", "v", int64(10))}},
 			m.Op{K: "save", Coll: c, Docs: []m.Doc{doc(u1, "v", int64(11))}},
 			m.Op{K: "saveStruct", Coll: c, Docs: []m.Doc{doc(u2, "v", int64(17))}},
